@@ -85,6 +85,23 @@ fn emit(v: Value) {
     println!("@@C13 {}", v);
 }
 
+/// yields by waking itself: the task goes to the back of the run queue at once (tokio's own
+/// yield_now is deferred until the scheduler parks), so on a current-thread runtime it runs
+/// between any two polls of the other tasks
+struct SelfWake(bool);
+impl std::future::Future for SelfWake {
+    type Output = ();
+    fn poll(mut self: std::pin::Pin<&mut Self>, cx: &mut std::task::Context<'_>) -> std::task::Poll<()> {
+        if self.0 {
+            std::task::Poll::Ready(())
+        } else {
+            self.0 = true;
+            cx.waker().wake_by_ref();
+            std::task::Poll::Pending
+        }
+    }
+}
+
 /// run a future in its own task so that a panic in it is caught by the runtime (the hook records it)
 async fn guarded<F, T>(f: F) -> Option<T>
 where
@@ -376,8 +393,13 @@ async fn run_case(v: Value, scratch: &PathBuf) -> Value {
                 "TRACE" => LoggerLevel::Trace,
                 _ => LoggerLevel::Info,
             };
+            // with tools/c13_fakeclock.c preloaded, C13_FAKE_NSEC fixes the sub-second part of the clock
+            if let Some(ns) = v.get("nanos").and_then(|x| x.as_u64()) {
+                std::env::set_var("C13_FAKE_NSEC", ns.to_string());
+            }
             let date = proxy_agent_shared::misc_helpers::get_date_time_string_with_milliseconds();
             let r = std::panic::catch_unwind(move || proxy_agent_shared::logger::get_log_header(level));
+            std::env::remove_var("C13_FAKE_NSEC");
             json!({"id": id, "op": op, "date": date, "panicked": r.is_err(), "header": r.ok(), "panics": take_panics()})
         }
         "kk" => {
@@ -406,7 +428,7 @@ async fn run_case(v: Value, scratch: &PathBuf) -> Value {
                 Some(tokio::spawn(async move {
                     loop {
                         std::thread::sleep(Duration::from_millis(block_ms));
-                        tokio::task::yield_now().await;
+                        SelfWake(false).await;
                     }
                 }))
             } else {
